@@ -123,7 +123,7 @@ class CtlSim:
             kw["pool_size"] = cfg["size"]
         kw["name"] = cfg.get("name", "p")
         if base is SimpleTaskPool:
-            pool = cls(ctlworkers.work, args=(1, "a"), kwargs={"k": 2}, end_callback=ctlworkers.on_end,
+            pool = cls(getattr(ctlworkers, self.run.get("simple_func", "work")), args=(1, "a"), kwargs={"k": 2}, end_callback=ctlworkers.on_end,
                        cancel_callback=ctlworkers.on_cancel, **kw)
         else:
             pool = cls(**kw)
